@@ -2,32 +2,12 @@ import FlatModel.Proofs.HuffBits
 /-! The byte store as a bit string, and the `Encoder` / `push_symbols` refinement (C06, item 2). -/
 namespace FC.Huff
 
-/-- all bits of a byte vector, MSB first per byte -/
-def allBits (bytes : List Nat) : List Bool := bytes.flatMap (bitsOfCode 8)
-
-/-- the first `n` bits of the byte vector -/
-def bitsOf (bytes : List Nat) (n : Nat) : List Bool := (allBits bytes).take n
-
-/-- the `(bytes, bits)` pair of `HuffmanContainer::inner`: exactly enough bytes, and the unused low
-bits of a partial last byte are zero -/
-def WFStore (bytes : List Nat) (bits : Nat) : Prop :=
-  bytes.length = (bits + 7) / 8 ∧ (∀ b ∈ bytes, b < 256) ∧
-    (bits % 8 ≠ 0 → bytes.getLast! % 2 ^ (8 - bits % 8) = 0)
+/-! `allBits`, `bitsOf`, `WFStore`, `codeOf`, `encodeBits`, `EncOK`: defined in Model/HuffSpec.lean -/
 
 /-- `bytes` is the bit string `bs`, zero-padded to a whole number of bytes -/
 def Packs (bytes : List Nat) (bs : List Bool) : Prop :=
   (∀ b ∈ bytes, b < 256) ∧ bytes.length = (bs.length + 7) / 8 ∧
     allBits bytes = bs ++ List.replicate (8 * bytes.length - bs.length) false
-
-def codeOf (c : Code) (s : Nat) : Option (List Bool) := (c.lookup s).map fun p => bitsOfCode p.1 p.2
-
-/-- the specification of the encoder: concatenate the code words -/
-def encodeBits (c : Code) : List Nat → Option (List Bool)
-  | [] => some []
-  | s :: r =>
-    match codeOf c s, encodeBits c r with
-    | some a, some b => some (a ++ b)
-    | _, _ => none
 
 /-- code length of a symbol (0 if unknown) -/
 def codeLen (c : Code) (s : Nat) : Nat := ((c.lookup s).map (·.1)).getD 0
@@ -171,9 +151,6 @@ theorem flush_spec (fuel p b : Nat) (out : List Nat) (n : Nat) (hp : p < 2 ^ b) 
         have : b = 0 := by omega
         subst this
         exact ⟨[], by simp, Packs.nil⟩
-
-/-- hypotheses on the code table needed by the encoder: every code fits next to < 8 pending bits in a `u64` -/
-def EncOK (c : Code) : Prop := ∀ s l code, c.lookup s = some (l, code) → l ≤ 57 ∧ code < 2 ^ l
 
 /-- the `u64` accumulator never truncates: fewer than 8 pending bits plus one code of at most 57 bits -/
 theorem pending_fits {p b l code : Nat} (hp : p < 2 ^ b) (hb : b < 8) (hl : l ≤ 57) (hc : code < 2 ^ l) :
